@@ -23,8 +23,11 @@ import (
 	"fmt"
 	"io"
 	"regexp"
+	"runtime"
 	"sort"
 	"strings"
+	"sync"
+	"sync/atomic"
 
 	"seehuhn.de/go/pdf"
 	"seehuhn.de/go/pdf/verifharness/common"
@@ -38,6 +41,10 @@ type rec struct {
 	// for a stream whose /Length is an indirect reference: where the header of the
 	// length object ends and where the length object ends
 	lenHdrEnd, lenEnd int
+	// an object stream: has to be listed in the section's ObjectStreams
+	objstm bool
+	// no expected value (container written by the Writer with a filter)
+	noVal bool
 }
 
 var indirectLength = regexp.MustCompile(`/Length ([0-9]+) 0 R`)
@@ -497,8 +504,11 @@ func observe(data []byte, withXRef bool) (obs string, pcs string, fi *pdf.FileIn
 }
 
 // oracle: every object whose endobj lies within the available bytes
-func (t *runner) oracle(d *doc, data []byte, avail int, fi *pdf.FileInfo, scanErr error, what string, id string, spurious bool) {
-	e := t.e
+// emit receives the failures (signature, text, case); the callers pass them to failCapped in
+// the order of the cuts
+type emitFn func(signature, what string, c any)
+
+func (t *runner) oracle(d *doc, data []byte, avail int, fi *pdf.FileInfo, scanErr error, what string, id string, spurious bool, emit emitFn) {
 	anyComplete := false
 	for _, rc := range d.recs {
 		if rc.end <= avail {
@@ -510,11 +520,11 @@ func (t *runner) oracle(d *doc, data []byte, avail int, fi *pdf.FileInfo, scanEr
 			// the implementation located marker text that is not at the beginning of a line (fixed: F24)
 			sig = "marker-text-located-without-preceding-eol"
 		}
-		failCapped(e, sig, msg, map[string]any{"id": id, "what": what, "available_bytes": avail, "file_hex": hex.EncodeToString(data), "doc": d.class})
+		emit(sig, msg, map[string]any{"id": id, "what": what, "available_bytes": avail, "file_hex": hex.EncodeToString(data), "doc": d.class})
 	}
 	if errors.Is(scanErr, errScanPanics) {
 		// a panic is never acceptable, whatever the bytes
-		failCapped(e, "scan-panics", "SequentialScan / FileInfo.Read panics on these bytes: "+scanErr.Error(),
+		emit("scan-panics", "SequentialScan / FileInfo.Read panics on these bytes: "+scanErr.Error(),
 			map[string]any{"id": id, "what": what, "available_bytes": avail, "file_hex": hex.EncodeToString(data), "doc": d.class})
 		return
 	}
@@ -541,7 +551,7 @@ func (t *runner) oracle(d *doc, data []byte, avail int, fi *pdf.FileInfo, scanEr
 			fail("complete-object-not-listed", fmt.Sprintf("object %v (complete at %d) is not listed at its offset %d", rc.ref, rc.end, rc.start))
 		case found.Broken && rc.lenHdrEnd > 0 && rc.lenHdrEnd <= avail && avail < rc.lenEnd && !spurious:
 			// the stream is complete but the object holding its /Length is cut off (fixed: F25)
-			failCapped(e, "complete-stream-broken-when-its-indirect-length-object-is-cut-off",
+			emit("complete-stream-broken-when-its-indirect-length-object-is-cut-off",
 				fmt.Sprintf("stream %v (complete at %d) is marked broken: the cut at %d falls inside its /Length object", rc.ref, rc.end, avail),
 				map[string]any{"id": id, "what": what, "available_bytes": avail, "file_hex": hex.EncodeToString(data), "doc": d.class})
 		case found.Broken:
@@ -550,8 +560,19 @@ func (t *runner) oracle(d *doc, data []byte, avail int, fi *pdf.FileInfo, scanEr
 			o, err := fi.Read(found)
 			if err != nil {
 				fail("complete-object-unreadable", fmt.Sprintf("object %v: %v", rc.ref, err))
-			} else if valueDigest(o) != rc.val {
+			} else if !rc.noVal && valueDigest(o) != rc.val {
 				fail("complete-object-wrong-value", fmt.Sprintf("object %v reads back with a different value", rc.ref))
+			}
+			if rc.objstm {
+				listed := false
+				for _, sec := range fi.Sections {
+					for _, os := range sec.ObjectStreams {
+						listed = listed || os == found
+					}
+				}
+				if !listed {
+					fail("complete-object-stream-not-listed", fmt.Sprintf("object stream %v (complete at %d) is not among the section's ObjectStreams", rc.ref, rc.end))
+				}
 			}
 			// what the index (last definition wins) gives for this reference
 			if found2 := lastDef(fi, rc.ref); found2 != found {
@@ -573,19 +594,58 @@ func lastDef(fi *pdf.FileInfo, ref pdf.Reference) *pdf.FileObject {
 	return res
 }
 
+type failRec struct {
+	sig, what string
+	c         any
+}
+
+type cutResult struct {
+	obs, pcs string
+	fails    []failRec
+}
+
+// allCuts evaluates every prefix of the file.  The prefixes are independent of each other:
+// they are evaluated by a few workers and reported in the order of the cuts.
 func (t *runner) allCuts(d *doc) {
 	e := t.e
 	t.nextID++
 	id := fmt.Sprintf("d%d", t.nextID)
 	e.Line("cases.txt", "%s F %s", id, common.Hex(d.data))
-	for cut := 0; cut <= len(d.data); cut++ {
+	n := len(d.data) + 1
+	results := make([]cutResult, n)
+	var wg sync.WaitGroup
+	var next atomic.Int64
+	workers := min(8, runtime.NumCPU())
+	for w := 0; w < workers; w++ {
+		wg.Add(1)
+		go func() {
+			defer wg.Done()
+			for {
+				cut := int(next.Add(1)) - 1
+				if cut >= n {
+					return
+				}
+				r := &results[cut]
+				emit := func(sig, what string, c any) { r.fails = append(r.fails, failRec{sig, what, c}) }
+				data := d.data[:cut]
+				cid := fmt.Sprintf("%s.%d", id, cut)
+				obs, pcs, fi, err, spur := observe(data, true)
+				r.obs, r.pcs = obs, pcs
+				t.oracle(d, data, cut, fi, err, "truncation", cid, spur, emit)
+				t.trailerOracle(d, data, cut, fi, cid, emit)
+			}
+		}()
+	}
+	wg.Wait()
+	for cut := 0; cut < n; cut++ {
 		data := d.data[:cut]
-		obs, pcs, fi, err, spur := observe(data, true)
+		r := &results[cut]
 		cid := fmt.Sprintf("%s.%d", id, cut)
-		e.Line("cases.txt", "%s C %d x %s", cid, cut, pcs)
-		e.Line("impl.obs", "%s %s", cid, obs)
-		t.oracle(d, data, cut, fi, err, "truncation", cid, spur)
-		t.trailerOracle(d, data, cut, fi, cid)
+		e.Line("cases.txt", "%s C %d x %s", cid, cut, r.pcs)
+		e.Line("impl.obs", "%s %s", cid, r.obs)
+		for _, f := range r.fails {
+			failCapped(e, f.sig, f.what, f.c)
+		}
 		complete := 0
 		for _, rc := range d.recs {
 			if rc.end <= cut {
@@ -604,7 +664,7 @@ func (t *runner) allCuts(d *doc) {
 }
 
 // trailerOracle: getTrailer chooses the newest trailer that is completely inside the bytes
-func (t *runner) trailerOracle(d *doc, data []byte, avail int, fi *pdf.FileInfo, id string) {
+func (t *runner) trailerOracle(d *doc, data []byte, avail int, fi *pdf.FileInfo, id string, emit emitFn) {
 	if d.trailers == nil || fi == nil {
 		return
 	}
@@ -622,7 +682,7 @@ func (t *runner) trailerOracle(d *doc, data []byte, avail int, fi *pdf.FileInfo,
 		}
 	}
 	if got != want {
-		failCapped(t.e, "trailer-is-not-the-newest-complete-one",
+		emit("trailer-is-not-the-newest-complete-one",
 			fmt.Sprintf("getTrailer chose revision %d, the newest complete trailer is that of revision %d (-1: none)", got, want),
 			map[string]any{"id": id, "available_bytes": avail, "file_hex": hex.EncodeToString(data), "doc": d.class})
 	}
@@ -847,6 +907,33 @@ func main() {
 			t.allCutsSparse(d, []int{n, n - 1, n - 30, rc.lenEnd, rc.lenEnd + 1, rc.start - 1, rc.start + 20})
 		}
 	}
+
+	// every kind of value as the top-level value of an indirect object (null, the empty
+	// composites, references, nested composites, streams with every form of /Length, object
+	// streams), in files of several scanner windows with many small objects: ALL cuts
+	res := &residues{}
+	type kd struct {
+		pad, rot, size, fillers int
+		xstm                    bool
+	}
+	kds := []kd{{0, 0, 2200, 1, false}, {37, 11, 3300, 0, true}, {333, 23, 4100, 2, true}}
+	if e.Thorough {
+		for p := 1; p <= 64; p++ {
+			kds = append(kds, kd{p * 16, p * 5, 2300 + 29*p, p % 4, p%2 == 0})
+		}
+	}
+	for _, k := range kds {
+		d := g.kindsDoc(k.pad, k.rot, k.size, k.fillers, k.xstm)
+		res.add(d)
+		t.allCuts(d)
+	}
+	// the same kinds written by the Writer into compressed object streams (PDF 1.5+)
+	for i := 0; i < e.Pick(2, 12); i++ {
+		d := g.compressedDoc(i)
+		res.add(d)
+		t.allCuts(d)
+	}
+	e.Sample(1, map[string]any{"value-kind files": len(kds), "residues of object headers modulo 1024 covered": res.count()})
 
 	// incremental updates (hand-written after a Writer document): which trailer MakeReader uses
 	for i := 0; i < e.Pick(2, 40); i++ {
